@@ -1,5 +1,6 @@
 import JsonPathVerif.Paths
 import JsonPathVerif.NPath
+import JsonPathVerif.PathAst
 /-! # C03 – each reported path is the Normalized Path of the reported node -/
 namespace JP.C03
 open JP
@@ -45,6 +46,13 @@ theorem C03b_results (E : Engine) (q : List Segment) (d : Json) (hd : d.plainKey
     p₁.path = p₂.path ↔ p₁.loc = p₂.loc := by
   rw [C03a_partial E q d hd hn ps h p₁ h₁, C03a_partial E q d hd hn ps h p₂ h₂]
   exact ⟨NPath.npath_injective _ _, fun e => by rw [e]⟩
+
+/-- (c), AST level: for a location whose member names need no escaping, the AST of its Normalized Path, run as a query, returns
+exactly the node at that location, reported with that very path – and nothing if the location does not exist.  (That the parser
+maps the text `npath l` to this AST is carried by the correspondence: every reported path is re-queried on the real crate.) -/
+theorem C03c_ast (E : Engine) (d : Json) (l : Loc) (h : plainLoc l = true) :
+    jsPathProcess E (segsOfLoc l) d = .ok (match d.at l with | some v => [⟨l, v, Spec.npath l⟩] | none => []) :=
+  query_of_npath_ast E d l h
 
 /-- non-vacuity: names that need every kind of escape round-trip through the decoder -/
 example : NPath.parseNPath (Spec.npath [.key "a'b\\\n".toList, .idx 10, .key [Char.ofNat 1]]) = some [.key "a'b\\\n".toList, .idx 10, .key [Char.ofNat 1]] :=
